@@ -314,7 +314,83 @@ def gen_cases(tier, seed):
         opts = "n" if rnd.random() < 0.2 else "-"
         cases.append(dict(base=None, dev=None, schema=sc, opts=opts, info=dict(g="random-schema")))
         hist["random_schema"] += 1
+    # --- leaf-list defaults in the instances of a grouping: 0-8 defaults, 2-3 uses in the defining module and one in
+    #     another module, add/replace default on one, two or all instances, in one deviation module or two
+    n_ll = 150 if not thorough else 2500
+    hist["grouping_leaflist_defaults"] = 0
+    for i in range(n_ll):
+        nd = i % 9
+        nuse = rnd.choice([2, 3])
+        g = ("grouping", 1, "g", [("leaflist", "gll", "string", None, ["v%d" % j for j in range(nd)], None, None),
+                                  ("leaflist", "gl2", "string", None, ["w%d" % j for j in range(rnd.choice([0, 1, 3]))], None, None),
+                                  ("leaf", "gx", "string", None, None, rnd.choice([None, "d1"]), None)])
+        insts = ["c%d" % (j + 1) for j in range(nuse)]
+        b = mod("b", "b", body=[g] + [("container", n, None, [("uses", "g")]) for n in insts])
+        a = mod("a", "a", imports=[("b", "b")], body=[("container", "ca", None, [("uses", "b:g")])])
+        sites = [("b", n) for n in insts] + [("a", "ca")]
+        hit = rnd.sample(sites, rnd.choice([1, 2, 2, len(sites)]))
+        devs = []
+        for k, (pm, cn) in enumerate(hit):
+            leafl = rnd.choice(["gll", "gll", "gll", "gl2"])
+            dvs = [deviate(rnd.choice(["add", "add", "add", "replace"]), default="x%d" % k)]
+            if rnd.random() < 0.3:
+                dvs.append(deviate("add", default="y%d" % k))
+            devs.append(("/%s:%s/%s:%s" % (pm, cn, pm, leafl), dvs))
+        if rnd.random() < 0.6 or len(devs) < 2:
+            dm = [devmod("d1", devs)]
+        else:
+            cut = rnd.randint(1, len(devs) - 1)
+            dm = [devmod("d1", devs[:cut]), devmod("d2", devs[cut:])]
+        cases.append(case([b, a], dm, info=dict(g="grouping-leaflist-defaults")))
+        hist["grouping_leaflist_defaults"] += 1
+    # --- the text layout of every case that has two or more deviate statements in one deviation is varied
+    hist["layout_varied"] = 0
+    for c in cases:
+        if any(len(dvs) >= 2 for m in full_schema(c) for _, dvs in m["deviations"]):
+            c["info"]["layout"] = rnd.randrange(1 << 30)
+            hist["layout_varied"] += 1
     return cases, hist
+
+
+# ------------------------------------------------------------------ text layout of deviation statements
+def render_module_layout(m, rnd):
+    """sg.render_module, but deviations with two or more deviate statements are laid out raggedly: random (also
+    decreasing) indentation per deviate, several deviates on one line, a deviate on the line of the `deviation`
+    keyword, substatements on lines of their own.  The written order is the order of the text either way."""
+    if rnd is None or not any(len(dvs) >= 2 for _, dvs in m["deviations"]):
+        return sg.render_module(m)
+    text = sg.render_module(dict(m, deviations=[]))
+    assert text.endswith("}\n")
+    out = text[:-2]
+    for path, dvs in m["deviations"]:
+        if len(dvs) < 2:
+            out += "  deviation %s {\n%s  }\n" % (sg.q(path), "".join(sg.render_deviate(d) for d in dvs))
+            continue
+        out += " " * rnd.choice([0, 2, 6]) + "deviation %s {" % sg.q(path)
+        style = rnd.choice(["ragged", "ragged", "decreasing", "oneline"])
+        indents = sorted([rnd.choice([1, 2, 4, 8, 12, 16]) for _ in dvs], reverse=True) if style == "decreasing" else \
+            [rnd.choice([0, 1, 2, 4, 8, 12]) for _ in dvs]
+        for i, d in enumerate(dvs):
+            t = sg.render_deviate(d).strip()
+            if rnd.random() < 0.3:
+                t = t.replace("; ", ";\n" + " " * rnd.choice([0, 3, 10]))
+            if style == "oneline" or (i == 0 and rnd.random() < 0.25) or (i > 0 and rnd.random() < 0.25):
+                out += " " + t
+            else:
+                out += "\n" + " " * indents[i] + t
+        out += "\n  }\n"
+    return out + "}\n"
+
+
+def go_case_c(c):
+    """process line for the implementation; the texts of the deviating modules get the case's layout"""
+    schema = full_schema(c)
+    lay = c["info"].get("layout")
+    toks = ["process", c["opts"], ",".join(["L%d" % i for i in range(len(schema))] + ["P"]), str(len(schema))]
+    for i, m in enumerate(schema):
+        text = render_module_layout(m, random.Random(lay * 1009 + i) if lay is not None else None)
+        toks += [sg.hx(m["name"] + ".yang"), sg.hx(text)]
+    return " ".join(toks)
 
 
 # ------------------------------------------------------------------ running
@@ -491,63 +567,36 @@ class Oracle:
 def written_lookup(c):
     """(module, steps) -> (min written, max written) from the SOURCE of the case"""
     table = {}
-    if c.get("schema") is None:
-        # regenerate the target table of the base (sources are in the target records kept in info)
-        for t in c["info"].get("_targets", []):
-            table[("b", tuple(t["steps"]))] = written(t)
-    else:
-        sc = base_only(c)
-        for m in sc:
-            if m["belongs"] is None:
-                for steps, kind, node in sg.expand_paths(sc, m, None):
-                    if kind == "list":
-                        table[(m["name"], tuple(steps))] = (node[4] is not None, node[5] is not None)
-                    elif kind == "leaflist":
-                        table[(m["name"], tuple(steps))] = (node[5] is not None, node[6] is not None)
-                    elif kind.startswith("leaflist") or kind.startswith("list"):
-                        pass
+    sc = base_only(c)
+    for m in sc:
+        if m["belongs"] is not None:
+            continue
+        for steps, kind, node in sg.expand_paths(sc, m, None):
+            if kind == "list":
+                table[(m["name"], tuple(steps))] = (node[4] is not None, node[5] is not None)
+            elif kind == "leaflist":
+                table[(m["name"], tuple(steps))] = (node[5] is not None, node[6] is not None)
+    for m in sc:
+        for path, body in m["augments"]:
+            mn, pre = resolve_target(sc, m, path)
+
+            def go(body, steps):
+                for n in body:
+                    if n[0] == "list":
+                        table[(mn, tuple(steps + [n[1]]))] = (n[4] is not None, n[5] is not None)
+                    elif n[0] == "leaflist":
+                        table[(mn, tuple(steps + [n[1]]))] = (n[5] is not None, n[6] is not None)
+                    if n[0] in ("container", "list", "case", "choice"):
+                        go(n[-1], steps + [n[1]])
+            go(body, list(pre))
     return lambda mn, steps: table.get((mn, tuple(steps)), (False, False))
 
 
-def attach_targets(cases):
-    """the generated base schemas carry their target table; keep it with the case for the written-flags lookup"""
-    cache = {}
-    for c in cases:
-        if c.get("schema") is not None:
-            continue
-        key = id(c["base"])
-        if key not in cache:
-            cache[key] = targets_of_base(c["base"])
-        c["info"]["_targets"] = cache[key]
-
-
-def targets_of_base(base):
-    """list/leaf-list nodes of the generated base and their paths (all that the written flags need)"""
-    out = []
-    byname = {m["name"]: m for m in base}
-    sc = base
-    for steps, kind, node in sg.expand_paths(sc, byname["b"], None):
-        if kind in ("list", "leaflist"):
-            out.append(dict(steps=steps, src=node))
-    for path, body in byname["a"]["augments"]:
-        pre = [p.split(":")[-1] for p in path.split("/")[1:]]
-
-        def go(body, steps):
-            for n in body:
-                if n[0] in ("list", "leaflist"):
-                    out.append(dict(steps=steps + [n[1]], src=n))
-                if n[0] in ("container", "list"):
-                    go(n[-1], steps + [n[1]])
-        go(body, pre)
-    return out
-
-
 def check_cases(res, cases, report=3):
-    attach_targets(cases)
     stats = dict(go_ok=0, go_err=0, base_err=0, frame_nodes=0, spec_targets=0, spec_evals=0, refusals=0, known=0,
                  out_of_scope=0, spec_err=0, spec_ok=0, skipped=0)
     # (i) model vs implementation, deviated run
-    go_lines = [sg.go_case(full_schema(c), opts=c["opts"]) for c in cases]
+    go_lines = [go_case_c(c) for c in cases]
     ml_lines = [sg.model_case(full_schema(c), opts=c["opts"]) for c in cases]
     base_lines, base_idx = [], {}
     for c in cases:
@@ -560,6 +609,7 @@ def check_cases(res, cases, report=3):
     ml = lib.run_ml(ml_lines)
     gb = lib.run_go(base_lines)
     nviol = 0
+    wcache = {}
 
     def viol(what, c, **extra):
         nonlocal nviol
@@ -598,7 +648,14 @@ def check_cases(res, cases, report=3):
             msg = frame_check(c, bdump, dump, stats)
             if msg:
                 viol("frame: " + msg, c)
-        oracles.append(Oracle(c, bdump, written_lookup(c)))
+        wkey = id(c["base"]) if c.get("schema") is None else None
+        if wkey is None or wkey not in wcache:
+            wl = written_lookup(c)
+            if wkey is not None:
+                wcache[wkey] = wl
+        else:
+            wl = wcache[wkey]
+        oracles.append(Oracle(c, bdump, wl))
     # (iii) the reference, batched round by round
     live = list(oracles)
     while live:
@@ -743,7 +800,9 @@ def run(res, tier, seed, proof):
              "equal|different (absent where the variant has none), not-supported with and without the option, unknown kind, "
              "unresolvable type; 2-3 deviates per target in every order; 2-3 deviation statements per module incl. "
              "target/ancestor/descendant combinations and missing targets; two deviating modules; schema_gen.random_schema "
-             "with p_dev=1.  Each case: model-vs-implementation, frame against the run without the deviating modules, "
+             "with p_dev=1; groupings whose leaf-lists have 0-8 defaults used 2-3 times in the defining and once in another module, "
+             "add/replace default on one, two or all instances; the text of every deviation with two or more deviates is laid "
+             "out raggedly (random and decreasing indentation, several deviates per line, deviate on the deviation line).  Each case: model-vs-implementation, frame against the run without the deviating modules, "
              "extracted reference applied to the undeviated dump",
         exhaustive=False, mismatches=nviol,
         distribution=dict(hist, groups=groups, **stats),
